@@ -1413,6 +1413,22 @@ prop(dict(
 ))
 
 
+prop(dict(
+    id="G06", fam="G06",
+    mc=[("H264MC.tla", "H264MC.cfg", {}), ("H264MC.tla", "H264MCNoResync.cfg", {}, "expect_violation")],
+    gen=[("H264LossGen.tla", "H264LossGen.cfg", {"thorough": {"Sizes": "{5, 9, 14, 25, 40}", "NFrag": "6"}})],
+    trace=("H264LossTrace.tla", "H264LossTrace.cfg"),
+    shards={"quick": 2, "thorough": 12},
+    nontrivial=lambda c: len(c["packets"]) >= 2,
+    class_of=lambda c: c["class"],
+    exhaustive=True,
+    rule="GROWTH: every loss subset of the packets of a frame from the independent RFC 6184 encoder (single unit, a unit in 2-5 FU-A fragments, a STAP-A), followed by an intact frame; "
+         "H264Packet's output for EVERY delivered packet, in Annex-B and AVC framing, is compared with the reference receiver H264!RefDepack",
+    assumptions=COMMON_ASSUME + ["not one of the listed properties: findings are reported in DESIGN.md 9.7, never as a listed property's violation",
+                                 "a fragmented unit whose start fragment was lost comes out front-truncated when its end arrives (the reference receiver models the library's behaviour here; RFC 6184 would have it discarded)"],
+))
+
+
 for _id in ("C02", "C03", "C08", "C09", "C10", "C14"):
     PROPS[_id]["rule"] += CORPUS_RULE
 
